@@ -367,7 +367,8 @@ func runC06Refund(c *core.Ctx) {
 		for _, x := range w.Nodes {
 			views[x.Name] = tokenView(x)
 		}
-		failure := ch.Int(3)
+		failure := ch.Int(4) // 3 = a token-keeper call fails on the destination (hook H2), after partial writes
+		world.DisarmKeeperFaults()
 		recv := w.Users[ch.Int(len(w.Users))].Addr.String()
 		if failure == 0 {
 			recv = []string{"not-an-address", "cosmos1xyz", "   x"}[ch.Int(3)]
@@ -423,6 +424,18 @@ func runC06Refund(c *core.Ctx) {
 		}
 		if !r.OK() {
 			continue
+		}
+		if failure == 3 {
+			ms := []string{"IssueMT", "MintMT", "MtTransferOwner"}
+			if isNFT {
+				ms = []string{"IssueDenom", "MintNFT", "TransferOwner"}
+			}
+			f := world.ArmKeeperFault(&world.KeeperFault{Chain: d.Name, Method: ms[ch.Int(len(ms))], Skip: ch.Int(2)})
+			e.Drain(40)
+			if f.Fired > 0 {
+				w.Stats.Inc("probe-refund-after-keeper-fault-" + f.Method)
+			}
+			world.DisarmKeeperFaults()
 		}
 		e.Drain(40)
 		found, succ := lastAckSuccess(e, sentBefore)
